@@ -36,20 +36,15 @@ ASSUMPTIONS = [
     "values are JSON documents with string keys (celtypes wrappers are removed by convert_bools before the comparator sees them)",
     "key-field values of x-koreo-compare-as-map items are str/int/bool/null (Python repr of floats, lists, dicts is not modelled); "
     "str.strip()/str.lower() are modelled for ASCII (messages and key texts are ASCII or uncased non-ASCII)",
-    "tmatch_iff (strict reading): the expected object is `regular` (well-shaped directives, map-directed lists are non-empty lists of "
-    "objects with distinct non-directive key texts, set-directed lists hold no booleans) and no list of the actual value directly holds a boolean",
-    "single_deviation_fails: expected and actual hold no directive-named keys",
+    "tmatch_total: every directive value of the expected object has the documented shape (`regular`); tmatch_iff has no hypothesis",
+    "single_deviation_fails: the expected object holds no directive-named keys; deviations never touch directive-named keys",
     "one reconcile pass makes at most one mutating API call (C07), so MockApi.materialized is that call's effect",
 ]
-TRUSTED = ["CPython ==/hash on str/int/float/bool/None (set membership conflates True/1/1.0)",
+TRUSTED = ["CPython ==/hash on str/int/float/bool/None and on (bool, value) pairs",
            "json.dumps/json.loads round-trip of the body kr8s hands to MockApi.call_api"]
 
 DIRECTIVES = ("x-koreo-compare-as-set", "x-koreo-compare-as-map", "x-koreo-compare-last-applied")
 LAST_APPLIED = "koreo.dev/last-applied-configuration"
-
-SIG_SET_BOOL = "set-directive: bool and equal number conflated"
-SIG_MAP_RAISE = "map-directive: actual value that is not a list of objects raises instead of failing"
-SIG_MAP_EMPTY = "map-directive: empty string/object accepted where an empty list is expected"
 
 
 # =============================================================================================
@@ -1215,15 +1210,10 @@ def unit_oracle(case, truth, obs):
             want = truth
         if obs == 2:
             dk = case.get("devkind", "")
-            if dk in ("map-list-to-nonlist", "map-item-to-scalar"):
-                return (SIG_MAP_RAISE, f"_validate_match raised on a {dk} deviation; a failing verdict was expected")
-            return (f"match: raises ({case.get('origin')}/{dk})", "_validate_match raised")
+            return (f"match: raises ({dk or case.get('origin')})",
+                    "_validate_match raised; a verdict was expected (well-formed assertion)")
         if bool(obs) != want:
             dk = case.get("devkind", "")
-            if not want and dk == "set-member-bool-vs-number":
-                return (SIG_SET_BOOL, "a boolean member replaced by the equal number (or back) in a set-compared list still passes")
-            if not want and dk == "map-empty-list-to-empty-other":
-                return (SIG_MAP_EMPTY, "'' / {} passes where the expected map-directed value is the empty list")
             if want:
                 return (f"match: truthful expectation fails ({case.get('origin')})", "an expectation that describes the actual value exactly does not pass")
             return (f"match: deviation passes ({dk or case.get('origin')})", f"a single deviation ({dk}) of the actual value still passes")
